@@ -295,6 +295,7 @@ package slip
 //@   property C13
 //@   on-store Val visible-and-not-constant: (vv.Export || CurrentPackage == obj || private) && !vv.Const && vv == obj.vars[name]
 //@   on-map-update vars users-get-the-same-cell: $value == vv && $key == name && $was == nil
+//@   on-map-update vars only-an-exported-variable-is-shared: vv.Export
 
 // an exported function becomes visible in every using package that has no
 // function of that name yet (a user's own definition is never replaced).
@@ -325,6 +326,10 @@ package slip
 //@   on-store Users not-yet-used: forall j :: (0 <= j && j < old(len(obj.Uses))) ==> old(obj.Uses[j]).Name != pkg.Name
 //@   on-store Uses not-yet-used: forall j :: (0 <= j && j < old(len(obj.Uses))) ==> old(obj.Uses[j]).Name != pkg.Name
 //@   loop rangeindex+1<len(obj.Uses): invariant scanned: forall j :: (0 <= j && j <= rangeindex) ==> old(obj.Uses[j]).Name != pkg.Name
+// what the using package takes over is exported, comes from the used package and
+// never replaces a definition that is there already (its own or an earlier one)
+//@   on-map-update vars only-exported-where-absent: $owner == obj && !$had && $value.Export && $value == pkg.vars[$key]
+//@   on-map-update funcs only-exported-where-absent: $owner == obj && !$had && $value.Export && $value == pkg.funcs[$key]
 
 // ---------------------------------------------------------------------------
 // C11: whoppers. continue-whopper runs the next wrapper in combination order
